@@ -131,7 +131,8 @@ def quiesce(k, env, cap=240.0, extra=0.0):
         queues = getattr(k, "queues", [])
         live = [q for q in queues if q.consumer is not None and q.consumer.state != "D"]
         send_ok = all(not q.q for q in queues) and all(q.quiet_gets >= 1 for q in live)
-        if fw.pending == 0 and link.inflight == 0 and not unread and not printing and read_ok and send_ok:
+        if (fw.pending == 0 and link.inflight == 0 and getattr(port, "inflight", 0) == 0 and not unread
+                and not printing and read_ok and send_ok):
             break
     else:
         k.probe("quiesce.cap_reached")
